@@ -173,3 +173,38 @@ package condition
 //@   ensures[rejected_section_changes_nothing] result0 != nil ==> (forall k int :: 0 <= k && k < len(*buckets) ==> ((*buckets)[k] <==> old((*buckets)[k])))
 //@   ensures[exactly_the_section_is_added] result0 == nil ==> (forall k int :: 0 <= k && k < len(*buckets) ==> ((*buckets)[k] <==> (old((*buckets)[k]) || (sectionLo(section) <= k && k <= sectionHi(section)))))
 //@   loop 1 invariant[filled_so_far] start <= i && i <= end + 1 && 0 <= start && end < HashMatcherBucketSize && start == sectionLo(section) && end == sectionHi(section) && len(*buckets) == HashMatcherBucketSize && (forall k int :: 0 <= k && k < len(*buckets) ==> ((*buckets)[k] <==> (old((*buckets)[k]) || (start <= k && k < i))))
+
+// ---- C18: the *_in matchers (sorted pattern list, binary search) ----
+
+//@ spec listedStr(s []string, v string) bool := exists k int :: 0 <= k && k < len(s) && s[k] == v
+
+//@ func in
+//@   props C18
+//@   nopanic index
+//@   modifies nothing
+//@   ensures[a_hit_is_a_listed_pattern] result0 ==> listedStr(patterns, v)
+//@   ensures[in_a_sorted_list_every_listed_pattern_is_found] sortedStr(patterns) && listedStr(patterns, v) ==> result0
+
+//@ func toUpper
+//@   props C18
+//@   nopanic index
+//@   modifies nothing
+//@   ensures[elementwise_upper_case_in_the_same_order] len(result0) == len(patterns) && (forall k int :: 0 <= k && k < len(patterns) ==> result0[k] == toUpper(patterns[k]))
+//@   ensures[a_fresh_list] len(patterns) > 0 ==> !allocated(result0)
+//@   loop 1 invariant[upper_so_far] len(upper) == len(patterns) && (forall k int :: 0 <= k && k <= rangeindex ==> upper[k] == toUpper(patterns[k]))
+
+//@ func NewInMatcher
+//@   props C18
+//@   nopanic nil
+//@   modifies *
+//@   ensures[the_pattern_list_is_sorted_as_searched] result0 != nil && sortedStr(result0.patterns) && result0.foldCase == foldCase
+
+//@ func (*InMatcher).Match
+//@   props C18
+//@   nopanic nil
+//@   requires im != nil
+//@   modifies nothing
+//@   let s := (im.foldCase ? toUpper(unbox(v, "string")) : unbox(v, "string"))
+//@   ensures[only_strings_match] !typeis(v, "string") ==> !result0
+//@   ensures[a_match_is_a_listed_pattern] result0 ==> typeis(v, "string") && listedStr(im.patterns, s)
+//@   ensures[with_a_sorted_list_every_listed_value_matches] typeis(v, "string") && sortedStr(im.patterns) && listedStr(im.patterns, s) ==> result0
